@@ -504,6 +504,10 @@ def _cap(fails, per_key=3):
     return out
 
 
+REDUCED = [2 ** 31 - 1, 0.5, '', 'abc', 'abcd', 'ñandú', b'\x00', b'abcd', b'abcde', None, [],
+           ['/m', 'abc', b'xyz'], [0.0, ['/m', 1]], '[', ']']
+
+
 def _work_msgs(task):
     address, first, maxlen = task
     sc()
@@ -512,6 +516,8 @@ def _work_msgs(task):
     n = 0
     if first is None:
         seqs = [()]
+    elif maxlen == 'reduced4':
+        seqs = ((REDUCED[first],) + rest for rest in itertools.product(REDUCED, repeat=3))
     else:
         seqs = ((ALPHABET[first],) + rest
                 for k in range(0, maxlen)
@@ -528,14 +534,15 @@ def _work_msgs(task):
 
 def run_messages(rep, pool):
     if rep.tier == 'thorough':
-        tasks = [(a, f, 4) for a in ADDRESSES[:2] for f in range(len(ALPHABET))]
-        tasks += [(a, f, 3) for a in ADDRESSES[2:] for f in range(len(ALPHABET))]
-        bound = ('all bracket-balanced argument lists of length <= 4 (addresses /a, /abc) '
-                 'and <= 3 (addresses /abcd, /ñ) over the %d-value alphabet' % len(ALPHABET))
+        tasks = [(a, f, 4) for a in ADDRESSES for f in range(len(ALPHABET))]
+        bound = ('all bracket-balanced argument lists of length <= 4 over the %d-value alphabet '
+                 'x 4 addresses' % len(ALPHABET))
     else:
         tasks = [(a, f, 3) for a in ADDRESSES for f in range(len(ALPHABET))]
+        tasks += [('/abc', f, 'reduced4') for f in range(len(REDUCED))]
         bound = ('all bracket-balanced argument lists of length <= 3 over the %d-value '
-                 'alphabet x 4 addresses' % len(ALPHABET))
+                 'alphabet x 4 addresses, and of length 4 over a %d-value sub-alphabet'
+                 % (len(ALPHABET), len(REDUCED)))
     tasks += [(a, None, 0) for a in ADDRESSES]
     n = 0
     tot = _new_stats()
@@ -1470,12 +1477,20 @@ FUNCS['type'] = _replay_type
 
 
 def report_all(rep, fails):
+    """Smallest first, but within a key one case per entry point before a
+    second one of the same entry point (only 3 per key are kept)."""
     seen = set()
+    rank = {}
+    ordered = []
     for f in sorted(fails, key=lambda f: (f['key'], f['size'], repr(f['input']))):
         ident = (f['key'], repr(f['input']), f['replay']['func'])
         if ident in seen:
             continue
         seen.add(ident)
+        k = (f['key'], f['replay']['func'])
+        rank[k] = rank.get(k, 0) + 1
+        ordered.append((f['key'], rank[k], f['size'], len(ordered), f))
+    for _, _, _, _, f in sorted(ordered, key=lambda t: t[:4]):
         rep.violation(obligation=f['obligation'], what=f['what'], input=f['input'], key=f['key'],
                       observed=f['observed'], expected=f['expected'], replay=f['replay'])
 
